@@ -24,6 +24,7 @@ def main(tier, replay=None):
     vk_build()
     plain = scratch_build(rd, "plain")
     vk_run(res, "c07", plain, rd, "0,0,0,0", 0, 600, "qmail-newmrh-then-qmail-smtpd", opts=["family=morercpt"])
+    vk_run(res, "c07", plain, rd, "0,1,0,0", 1, 900, "command-sequences-arriving-in-two-pieces", opts=["family=sessions", "maxlen=3"])
     res.rule = ("for every configuration in {rcpthosts absent/present} x {morercpthosts.cdb absent/present (written with the cdbmss writer qmail-newmrh "
                 "uses)} x {badmailfrom absent/address/@domain} x {localiphost absent/present} x RELAYCLIENT {unset, empty, @gw}, plus 18 configurations whose morercpthosts.cdb is unreadable and 18 whose rcpthosts exists without any entry: breadth-first "
                 "search over command sequences of the real qmail-smtpd (one command per transition through the real commands() loop, DATA with "
@@ -33,7 +34,8 @@ def main(tier, replay=None):
                 "server states, transitions = commands executed; every transition out of a state of depth <= 2 is repeated with the line ended by a bare LF and "
                 "pipelined with a following NOOP in the same read: replies, server state and submission must not differ; program level (VK): the real "
                 "qmail-newmrh compiles a morercpthosts source (mixed case, wildcard, trailing blanks, comments, no final newline; and an empty one) and "
-                "the real qmail-smtpd process answers 13 recipients (exact, case-changed, wildcard, near misses) as the documented rule says" % depth)
+                "the real qmail-smtpd process answers 13 recipients (exact, case-changed, wildcard, near misses) as the documented rule says; every command sequence <=3 ending in DATA (C07 family sessions) "
+                "with the input arriving in two pieces cut at every byte (between CR and LF too): same replies, same queued envelopes" % depth)
     res.assumptions = ["reference transaction machine and rcpthosts/badmailfrom policy written from RFC 5321 and qmail-smtpd(8)",
                        "network and queue are harness stand-ins (smtpd_env.h); the queue side is C07's subject"]
     res.require_nonzero("evaluations", "states", "transitions", "recipients_accepted", "recipients_refused", "messages_submitted", "morercpthosts_recipients_checked")
